@@ -74,7 +74,7 @@ def run(ctx):
             if res[0] == 'ok':
                 spec_oracles(ctx, a, dt, trap, res[1], exact)
         # object-level access equals array-level access (trap=True)
-        asig = eqsig.AccSignal(a, dt)
+        asig = ctx.aged(eqsig.AccSignal, a, dt)
         ov, od = asig.velocity, asig.displacement
         v, d = sd.calc_velo_and_disp_from_accel_arr(a, dt)
         ctx.oracle('object-level velocity/displacement == array-level', np.array_equal(ov, v) and np.array_equal(od, d),
@@ -153,7 +153,8 @@ def object_history(ctx, a, dt):
     trap = True
     hist = []
     for _ in range(rng.randint(2, 5)):
-        op = rng.choice(['read', 'peaks', 'add_constant', 'reset_values', 'gen(trap=False)', 'gen(trap=True)', 'scale'])
+        op = rng.choice(['read', 'peaks', 'add_constant', 'reset_values', 'gen(trap=False)', 'gen(trap=True)', 'scale',
+                         'set_zero_residual_velocity', 'set_zero_residual_displacement', 'inplace-edit+reset_values', 'rebase_displacement'])
         if op == 'add_constant':
             c = rng.choice([0.5, -1.0, 2.0])
             asig.add_constant(c)
@@ -166,6 +167,21 @@ def object_history(ctx, a, dt):
         elif op == 'scale':
             cur = cur * -0.5
             asig.reset_values(cur.copy())
+            trap = True
+        elif op in ('set_zero_residual_velocity', 'set_zero_residual_displacement', 'rebase_displacement'):
+            if len(cur) < 4 or np.max(np.abs(cur)) == 0:
+                continue
+            try:
+                getattr(asig, op)()
+            except Exception:       # degenerate records (division by zero in the correction): not part of C08
+                return
+            cur = np.array(asig.values, dtype=float)     # the new record is whatever the mutator left; the integrals must follow IT
+            trap = True
+        elif op == 'inplace-edit+reset_values':
+            v_ = asig.values
+            v_ *= 0.5
+            asig.reset_values(v_)
+            cur = cur * 0.5
             trap = True
         elif op == 'gen(trap=False)':
             asig.generate_displacement_and_velocity_series(trap=False)
